@@ -5,7 +5,7 @@
    If those do not differ, the store is identical - so every observation is unchanged and a
    corrected call behaves as if the failed one had never happened.  The two classes are real:
    witnesses below. *)
-From Stam Require Import Base.Tac Model.Offset Model.Store Model.StoreObs Spec.StoreSpec
+From Stam Require Import Base.Tac Model.Offset Model.Store Model.StoreExt Model.StoreObs Spec.StoreSpec
      Proofs.StoreInv Proofs.StoreErr.
 
 Theorem C14_failed_add_frame : forall s o s',
@@ -19,6 +19,16 @@ Theorem C14_failed_annotate_frame : forall s b s', annotate s b = (s', OErr) ->
   same_core s s' /\ ridx s' = ridx s
   /\ (ress s' = ress s -> sets s' = sets s -> sidx s' = sidx s -> s' = s).
 Proof. exact annotate_err_frame. Qed.
+
+(* add_dataset with data items is built aside: a failure changes nothing at all *)
+Theorem C14_failed_add_dataset_with_data : forall s id items s',
+  add_set_with s id items = (s', OErr) -> s' = s.
+Proof.
+  intros s id items s' H. unfold add_set_with in H.
+  destruct (build_items _ items); [|inversion H; reflexivity].
+  destruct (id_get (sidx s) id) as [h|]; [|discriminate].
+  destruct (get_set s h) as [ex|]; [destruct (dset_eqb ex d)|]; inversion H; reflexivity.
+Qed.
 
 (* class 1: the target's text selection stays behind when the data step fails *)
 Example Known_C14_textselection_left_witness :
